@@ -283,7 +283,10 @@ func (e *SpecEnv) asInt(v Value) string {
 	case KInt:
 		return v.S
 	case KBV8:
-		return mkB2I(v.S)
+		if e.st == e.old || e.st == e.pre || e.st == e.x.entry {
+			return mkB2I(v.S) // snapshot states must not receive new path facts
+		}
+		return e.x.b2iNamed(e.st, v.S)
 	case KOpaque:
 		if e.x.tc.sortOf(v.T) == sInt {
 			return v.S
@@ -931,7 +934,11 @@ func (e *SpecEnv) applySpec(sf *SpecFunc, argEx []SExpr) Value {
 			specFail("spec function recursion too deep in %s", sf.Name)
 		}
 		defer func() { x.specDepth-- }()
-		env := &SpecEnv{x: x, st: e.st, old: e.old, pre: e.pre, names: map[string]Value{}, pkg: e.pkg, fr: nil}
+		wf := e.witFr
+		if wf == nil {
+			wf = e.fr
+		}
+		env := &SpecEnv{x: x, st: e.st, old: e.old, pre: e.pre, names: map[string]Value{}, pkg: e.pkg, fr: nil, witFr: wf, inWitness: e.inWitness}
 		for i, p := range sf.Params {
 			env.names[p.Name] = args[i]
 		}
